@@ -10,5 +10,5 @@ CONSTANTS
   NoMinMax = @NOMINMAX@
   OutVariant = "@VARIANT@"
 VIEW View
-INVARIANTS ReportIndep
+INVARIANTS ListInv
 CHECK_DEADLOCK FALSE
